@@ -791,6 +791,19 @@ def import_pair(rnd):
             if ss and not t.params:
                 lines.append("  %d [+%d]  imp.%s  s%d" % (pos, ss, t.name, pos))
                 pos += ss
+            elif t.params:
+                # a parameterised structure of the other file, used with the right or a wrong number / kind of
+                # arguments: the diagnostics then point into BOTH files
+                n = len(t.params)
+                k2 = rnd.random()
+                if k2 < 0.35:
+                    args = ["a"] * n
+                elif k2 < 0.6:
+                    args = ["a"] * rnd.choice([max(0, n - 1), n + 1])
+                else:
+                    args = [rnd.choice(["a", "true", "300", "a == 1", "a + a"]) for _ in range(n)]
+                lines.append("  %d [+%d]  imp.%s%s  q%d" % (pos, ss or 8, t.name, ("(%s)" % ", ".join(args)) if args else "", pos))
+                pos += ss or 8
             for f in t.fields:
                 if f.is_virtual and not has_ref(f.value):
                     lines.append("  let v%d = imp.%s.%s" % (pos, t.name, f.name))
